@@ -278,12 +278,13 @@ def match_finding(known, prop, key):
 # --------------------------------------------------------------------------- evidence
 
 def write_evidence(prop, tier, seed, coverage, assumptions, wall, violations, level='model_checking'):
-    os.makedirs(os.path.join(VERIF, 'evidence'), exist_ok=True)
+    evdir = os.environ.get('VERIF_EVIDENCE_DIR') or os.path.join(VERIF, 'evidence')      # test hook: seeded-change runs must not overwrite the evidence
+    os.makedirs(evdir, exist_ok=True)
     ev = {
         'property_id': prop, 'tier': tier, 'seed': seed, 'level': level,
         'coverage': coverage, 'assumptions': assumptions, 'wall_s': round(wall, 2), 'violations': violations,
     }
-    p = os.path.join(VERIF, 'evidence', prop + '.json')
+    p = os.path.join(evdir, prop + '.json')
     tmp = p + '.tmp'
     with open(tmp, 'w') as f:
         json.dump(ev, f, indent=1, sort_keys=True, default=str)
